@@ -142,6 +142,20 @@ def gen_case(rng, index, tier):
                                  'c%de%d' % (index, i), volume_rel='',
                                  home=t['home'])
         entries.append(e)
+    # the same path trashed twice (file kinds, distinct dates): both are
+    # listed; with --overwrite both selected ones are restored, the later
+    # over the earlier
+    dup = False
+    plain = [e for e in entries if e['kind'] in ('file', 'empty')]
+    if plain and rng.random() < 0.3:
+        src = rng.choice(plain)
+        t = rng.choice([t for t in trashes if t['volume'] == ''])
+        e = trashgen.add_trashed(L, rng, t['rel'], 'dup', src['loc'],
+                                 '2011-11-1%dT11:11:11' % rng.randint(0, 9),
+                                 rng.choice(['file', 'empty']),
+                                 'c%ddup' % index, volume_rel='', home=t['home'])
+        entries.append(e)
+        dup = True
     # one entry on another volume (never in scope of R/top)
     if 'v1' in L.mounts:
         t1 = [t for t in trashes if t['volume'] == 'v1']
@@ -165,6 +179,7 @@ def gen_case(rng, index, tier):
     case['scope'] = sc
     case['how'] = how
     case['sort'] = rng.choice([None, 'date', 'path', 'none'])
+    case['overwrite'] = rng.random() < (0.6 if dup else 0.1)
     nin = len([e for e in entries if spec.in_scope('/' + e['loc'], '/' + sc if sc else '/')])
     case['reply'], case['rclass'] = gen_reply(rng, nin)
     return case
@@ -250,6 +265,8 @@ def run_case(case):
         args = []
         if case['sort']:
             args += ['--sort', case['sort']]
+        if case.get('overwrite'):
+            args.append('--overwrite')
         how = case['how']
         cwd = w.R
         if how == 'cwd':
@@ -291,16 +308,26 @@ def run_case(case):
             viol('contract:' + c['contract'], contract=c)
         lst = trashio.parse_restore_listing(r.outtext())
         want = {}
+        pool = []
         for e in ents:
             full = w.abs(e['loc'])
             if spec.in_scope(full, sc_abs):
                 want[full] = e
-        listed = [p for i, d, p in lst]
-        if sorted(listed) != sorted(want):
+                pool.append((full, e['date'].replace('T', ' '), e))
+        listed = sorted((p, d) for i, d, p in lst)
+        if listed != sorted((p, d) for p, d, e in pool):
             viol('listed-set-differs-from-scope',
-                 listed=listed, expected=sorted(want))
+                 listed=listed, expected=sorted((p, d) for p, d, e in pool))
             out['verdict'] = 'violation'
             return out
+        row_entry = {}
+        left = list(pool)
+        for i, d, p in lst:
+            for j, (pp, dd, e) in enumerate(left):
+                if pp == p and dd == d:
+                    row_entry[i] = e
+                    del left[j]
+                    break
         if [i for i, d, p in lst] != list(range(len(lst))):
             viol('numbering-has-gaps', listing=lst)
         # order
@@ -321,9 +348,16 @@ def run_case(case):
             expect = spec.parse_reply(reply, n)
         else:
             expect = model_parse(reply, n)
-        sel_entries = [want[lst[i][2]] for i in sorted(set(expect or []))
+        sel_entries = [row_entry[i] for i in sorted(set(expect or []))
                        if i < n]
         skip = nested(sel_entries)
+        sel_locs = [e['loc'] for e in sel_entries]
+        shared = len(set(sel_locs)) != len(sel_locs)
+        if shared and not case.get('overwrite'):
+            # two selected entries for one path without --overwrite: the
+            # second must be refused - C06's business
+            obs['shared_destination_skipped'] = 1
+            skip = True
         if any(e['loc'] in s0 for e in sel_entries):
             # a selected destination is occupied (by the cwd of the run or a
             # parent directory): refusal is C06's business
@@ -333,15 +367,30 @@ def run_case(case):
             # two selected entries with nested destinations: C06's business
             obs['nested_selection_skipped'] = 1
         restored = []
+        # with --overwrite the LAST selected entry for a path is what stands
+        # there in the end; the earlier ones were restored and then replaced
+        last_for_loc = {}
+        if expect:
+            seen_i = set()
+            for i in expect:            # an index given twice counts once
+                if i < n and i not in seen_i:
+                    seen_i.add(i)
+                    last_for_loc[row_entry[i]['loc']] = i
         for i, d, p in lst:
-            e = want[p]
+            e = row_entry[i]
             ik, pk = trashworld.pair_keys(e)
             pay0 = snap.subtree(s0, pk)
             at = snap.subtree(s1, e['loc'])
             st = trashworld.entry_state(s0, s1, e)
-            if at == pay0 and st == 'gone':
+            if st == 'gone' and shared and case.get('overwrite') and expect \
+                    and i in expect and last_for_loc.get(e['loc']) != i:
+                restored.append(i)          # restored, later overwritten
+                obs['overwritten_by_later_selection'] = 1
+            elif at == pay0 and st == 'gone':
                 restored.append(i)
             elif st == 'intact' and (e['loc'] not in s1 or
+                                     any(x is not e and x['loc'] == e['loc']
+                                         for x in ents) or
                                      (s1[e['loc']][0] == 'd' and
                                       (e['loc'] in s0 or
                                        any(x['loc'].startswith(e['loc'] + '/')
@@ -392,7 +441,7 @@ def run_case(case):
             viol('restore-changed-something-else', stray=stray[:6])
         # entries not listed must be untouched
         for e in ents:
-            if w.abs(e['loc']) not in want:
+            if not any(e is x for p_, d_, x in pool):
                 if trashworld.entry_state(s0, s1, e) != 'intact':
                     viol('out-of-scope-entry-touched', entry=e)
         out['nontrivial'] = n >= 2 and case['rclass'] != 'single'
